@@ -55,6 +55,91 @@ inline Problem effectiveFromPoints(const Problem &p, std::vector<double> *tp_out
     return e;
 }
 
+// A spline for problem p obtained through a random route: one of the constructors, or a long-lived object with a
+// short history of earlier problems (same or different N, either update overload) and read-only queries, finally
+// updated with p.  viaPoints tells which time specification the final step used (the effective problem differs).
+inline std::unique_ptr<ISpline> makeSplineHist(Ctx &c, Rng &r, const Problem &p, bool &viaPoints)
+{
+    int mode = r.range(0, 5);
+    viaPoints = (mode % 2) == 1;
+    if (mode == 0)
+    {
+        c.event("route.ctor_durations");
+        return makeSplineDur(p);
+    }
+    if (mode == 1)
+    {
+        c.event("route.ctor_timepoints");
+        return makeSplinePts(p);
+    }
+    auto L = makeSpline(p.order, p.dim);
+    const int steps = r.range(1, 4);
+    Problem prev;
+    bool havePrev = false;
+    for (int st = 0; st < steps; ++st)
+    {
+        Problem q = genProblem(r, p.order, p.dim, r.coin(0.6) ? p.N : r.range(1, 8));
+        // optimisation loops re-update one object with partly unchanged inputs: same durations / same waypoints /
+        // exactly the same problem again / the final problem's durations
+        if (havePrev && r.coin(0.5))
+        {
+            int k = r.range(0, 2);
+            Problem q2 = genProblem(r, p.order, p.dim, prev.N);
+            if (k == 0)
+            {
+                q2.T = prev.T;
+                q2.t0 = prev.t0;
+            }
+            else if (k == 1)
+            {
+                q2.P = prev.P;
+                q2.bc = prev.bc;
+            }
+            else
+                q2 = prev;
+            q = q2;
+        }
+        else if (r.coin(0.25))
+        {
+            q = genProblem(r, p.order, p.dim, p.N);
+            q.T = p.T;
+            q.t0 = p.t0;
+        }
+        prev = q;
+        havePrev = true;
+        if (r.coin(0.6))
+            L->updateDur(q.T, q.P, q.t0, q.bc);
+        else
+            L->updatePts(q.timePoints(), q.P, q.bc);
+        // queries that populate lazy caches / internal workspaces
+        if (r.coin(0.7))
+            (void)L->energy();
+        if (r.coin(0.5))
+            (void)L->energyGrad(r.coin());
+        if (r.coin(0.5))
+        {
+            (void)L->partialC(r.coin());
+            (void)L->partialT(r.coin());
+        }
+        if (r.coin(0.7))
+        {
+            std::vector<double> cu = L->cumTimes();
+            (void)L->trajEval(r.uni(cu.front(), cu.back()), r.range(0, q.ncoef() - 1));
+        }
+        if (r.coin(0.4))
+        {
+            MatrixXd g = MatrixXd::Constant(q.ncoef() * q.N, q.dim, 0.5);
+            (void)L->propagate(g, VectorXd::Constant(q.N, 0.25), r.coin());
+        }
+    }
+    if (viaPoints)
+        L->updatePts(p.timePoints(), p.P, p.bc);
+    else
+        L->updateDur(p.T, p.P, p.t0, p.bc);
+    c.event(viaPoints ? "route.reused_object_update_timepoints" : "route.reused_object_update_durations");
+    return L;
+}
+
 inline double scaledDiff(double a, double b, double scale)
 {
     double d = std::fabs(a - b);
@@ -196,11 +281,19 @@ inline void runC01(Ctx &c)
             else
             {
                 s = makeSpline(cl.order, cl.dim);
-                if (r.coin(0.5))
+                if (r.coin(0.6))
                 {
-                    // object previously used for another problem
-                    Problem q = genProblem(r, cl.order, cl.dim, r.range(1, 8));
-                    s->updateDur(q.T, q.P, q.t0, q.bc);
+                    // object previously used (and queried) for another problem, with the same or another segment count
+                    Problem q = genProblem(r, cl.order, cl.dim, r.coin(0.5) ? cl.N : r.range(1, 8));
+                    if (r.coin())
+                        s->updateDur(q.T, q.P, q.t0, q.bc);
+                    else
+                        s->updatePts(q.timePoints(), q.P, q.bc);
+                    if (r.coin(0.8))
+                    {
+                        (void)s->trajEval(q.t0 + 0.3 * q.T[0], r.range(0, 2));
+                        (void)s->energy();
+                    }
                     c.event("entry.update_on_reused_object");
                 }
                 if (entry == 2)
@@ -350,8 +443,9 @@ inline void runC02(Ctx &c)
             if (idx < 1)
                 c.wantSample();
             c.event(std::string("dur_pattern.") + kDurPatternNames[pat]);
-            auto s = (idx & 1) ? makeSplineDur(p) : makeSplinePts(p);
-            Problem e = (idx & 1) ? p : effectiveFromPoints(p);
+            bool viaPts = false;
+            auto s = makeSplineHist(c, r, p, viaPts);
+            Problem e = viaPts ? effectiveFromPoints(p) : p;
             MatrixXd C = s->coeffs();
             if (!c.require("C02.coeff_shape", C.rows() == e.ncoef() * e.N && C.cols() == e.dim, keyJson(e, "shape", 0)))
                 continue;
@@ -521,7 +615,10 @@ inline void runC04(Ctx &c)
             Rng r = c.beginCase(cl.name, idx);
             Problem p = (idx % 3 == 0) ? genProblem(r, cl.order, cl.dim, cl.N) : genWideDurations(r, cl.order, cl.dim, cl.N);
             c.dump = [&]() { return dumpProblem(p); };
-            auto s = makeSplineDur(p);
+            bool viaPts = false;
+            auto s = makeSplineHist(c, r, p, viaPts);
+            if (viaPts)
+                p = effectiveFromPoints(p);
             MatrixXd C = s->coeffs();
             if (!c.require("C04.coeff_shape", C.rows() == p.ncoef() * p.N && C.cols() == p.dim, keyJson(p, "shape", 0)))
                 continue;
